@@ -81,8 +81,8 @@ TOLERANCES = {
           "distance of a node from the two expansion origins (raw 0 and the normalisation origin). Reason: the cell polynomial "
           "is solved for and stored as monomial coefficients c_ijk, its evaluation error is gamma * sum |c_ijk| |x|^i |y|^j |z|^k "
           "(Higham, monomial-basis evaluation) and |c_i| <~ K^i max|f|. kappa generalises DESIGN's max(1, (|centre|/width)^3) to the "
-          "tensor-product cubic; 1e-13 = 900 u covers the 4^d-term sums and the LU solve (measured worst error 30 u kappa S over "
-          "5000 random configurations); the cap 1e-6 is the largest tolerance DESIGN allows (1e-9 * kappa_max = 1000).",
+          "tensor-product cubic; 1e-13 = 900 u covers the 4^d-term sums and the LU solve (measured: worst error 30 u kappa S over "
+          "5000 random configurations; with 1e-14 the check stays quiet over 8000 cases, with 1e-15 it fails on 1-D quadratics at 20 u); the cap 1e-6 is the largest tolerance DESIGN allows (1e-9 * kappa_max = 1000).",
     "approx": "|cache(p) - f(p)| <= 1.0 * sum_a h_a^2 max|d2f/da2| + fp. A-priori bound of the scheme: in 1-D the cubic Hermite "
               "interpolant with central-difference slopes differs from the linear interpolant L by h |m_i - s| t(1-t) <= h^2 M/8 and "
               "|f - L| <= h^2 M/8, i.e. h^2 M/4 (border cells: the outer stencil step res-1e-7 is <= h, same bound); the 2-D/3-D "
@@ -249,11 +249,13 @@ def _case(draw, dim):
         return area, res, f2
 
     area, res, fn2 = build(1.0, 1.0)
+    shrunk = False
     if EXCLUDE_ILL and fn["kind"] == "sin":
         shrink = kshrink = 1.0
         for _ in range(200):
             if kappa_of(dim, area, res, fn2) <= KAPPA_CAP:
                 break
+            shrunk = True
             shrink *= 0.8
             kshrink *= 0.9
             area, res, fn2 = build(shrink, kshrink)
@@ -292,7 +294,7 @@ def _case(draw, dim):
     perm = list(draw(st.permutations(list(range(len(pts))))))
     return {"dim": dim, "area": area, "res": res, "nbe": draw(st.booleans()), "fb": fb,
             "fb_x": [draw(st.sampled_from([0.0, 1.0, 10.0, 100.0])) * draw(st.floats(0.0, 1.0)) for _ in range(2)],
-            "f": fn, "pts": pts, "perm": perm}
+            "f": fn, "pts": pts, "perm": perm, "shrunk": shrunk}
 
 
 # ------------------------------------------------------------------------------------------------ run
@@ -396,6 +398,8 @@ def run(case, ctx):
         ctx.label("res:divides")
     if kappa * FP_BASE > FP_CAP:
         ctx.label("tol-capped")
+    if case.get("shrunk"):
+        ctx.label("excluded_known")       # drawn with kappa > 1e7; centre and wavenumbers were scaled down (open finding)
 
     # ---- order A: values, inside/outside behaviour, approximation
     vA = []
